@@ -11,6 +11,13 @@ from .loops import AbsSim, make_grid, make_stoich, run_prologue, havoc_array, ch
 from pyxsym.sym import s_and, s_or, s_not, s_log, ite, is_sym, CFault, Sym, Unsupported
 
 
+def _ud_untouched(sim, UD_orig):
+    """the stoichiometric matrices the interface hands out (the model's own arrays) hold the very same entries"""
+    U0, u0, D0, d0 = UD_orig
+    return sim.U is U0 and sim.D is D0 and all(a is b for a, b in zip([U0[i, j] for i in range(U0.shape[0]) for j in range(U0.shape[1])], u0)) \
+        and all(a is b for a, b in zip([D0[i, j] for i in range(D0.shape[0]) for j in range(D0.shape[1])], d0))
+
+
 def report(c, cond, label, sig=None, kind="ssa"):
     facets = getattr(c, "facets", None)
     if facets is not None and label.startswith("["):
@@ -142,6 +149,8 @@ def delay_step(interp, c, case, facets=None, rules=False):
     c.assume(t0 <= grid[0])
     sim = AbsSim(c, S, R, x0, U, D, t0, dt)
     x0_orig, p_orig = list(x0), list(sim.params)
+    UD_orig = (sim.U, [sim.U[i_, j_] for i_ in range(sim.U.shape[0]) for j_ in range(sim.U.shape[1])],
+               sim.D, [sim.D[i_, j_] for i_ in range(sim.D.shape[0]) for j_ in range(sim.D.shape[1])])
     if rules:
         sim.havoc_rules()
     q, q0, dtq = _mk_queue(interp, c, R, C, start)
@@ -291,7 +300,7 @@ def delay_step(interp, c, case, facets=None, rules=False):
     if ci_new < T:
         inv.append(L["current_time"] <= grid[ci_new])
     inv += [q.queue[r, col] >= 0 for r in range(R) for col in range(C)]
-    report(c, all(a is b for a, b in zip(sim.x0, x0_orig)) and all(a is b for a, b in zip(sim.params, p_orig)),
+    report(c, all(a is b for a, b in zip(sim.x0, x0_orig)) and all(a is b for a, b in zip(sim.params, p_orig)) and _ud_untouched(sim, UD_orig),
            "[model-untouched] delay loop: the interface's initial-state and parameter arrays are never written", "delay loop writes the model", K)
     report(c, s_and(*inv), "[invariant] delay loop: clock never runs backwards, stays before the next grid time and the "
                            "next queue slot; pending counts stay non-negative", "delay invariant", K)
@@ -334,6 +343,8 @@ def volume_step(interp, c, case, vol_factory=None, facets=None, rules=False, ali
     c.assume(t0 <= grid[0])
     sim = AbsSim(c, S, R, x0, U, D, t0, dt)
     x0_orig, p_orig = list(x0), list(sim.params)
+    UD_orig = (sim.U, [sim.U[i_, j_] for i_ in range(sim.U.shape[0]) for j_ in range(sim.U.shape[1])],
+               sim.D, [sim.D[i_, j_] for i_ in range(sim.D.shape[0]) for j_ in range(sim.D.shape[1])])
     if rules:
         sim.havoc_rules()
     V0 = c.real("V0", lo=0, lo_strict=True)
@@ -499,7 +510,7 @@ def volume_step(interp, c, case, vol_factory=None, facets=None, rules=False, ali
     inv = [ci_new <= T, L["current_time"] >= t, L["current_volume"] > 0, L["current_time"] <= L["next_queue_time"]]
     if ci_new < T:
         inv.append(L["current_time"] <= grid[ci_new])
-    report(c, all(a is b for a, b in zip(sim.x0, x0_orig)) and all(a is b for a, b in zip(sim.params, p_orig)),
+    report(c, all(a is b for a, b in zip(sim.x0, x0_orig)) and all(a is b for a, b in zip(sim.params, p_orig)) and _ud_untouched(sim, UD_orig),
            "[model-untouched] volume loop: the interface's initial-state and parameter arrays are never written", "volume loop writes the model", K)
     report(c, s_and(*inv), "[invariant] volume loop: clock never runs backwards and stays before the next grid time and the "
                            "next volume step; volume stays positive", "volume invariant", K)
@@ -536,6 +547,8 @@ def delay_volume_step(interp, c, case, facets=None):
     c.assume(t0 <= grid[0])
     sim = AbsSim(c, S, R, x0, U, D, t0, dt)
     x0_orig, p_orig = list(x0), list(sim.params)
+    UD_orig = (sim.U, [sim.U[i_, j_] for i_ in range(sim.U.shape[0]) for j_ in range(sim.U.shape[1])],
+               sim.D, [sim.D[i_, j_] for i_ in range(sim.D.shape[0]) for j_ in range(sim.D.shape[1])])
     V0 = c.real("V0", lo=0, lo_strict=True)
     vol = AbsVolume(c, V0)
     q, q0, dtq = _mk_queue(interp, c, R, C, start)
@@ -675,7 +688,7 @@ def delay_volume_step(interp, c, case, facets=None):
     report(c, s_and(*[L["c_current_state"][i] + tot_post[i] == x_eff[i] + tot_pre[i] + ghost_delta[i] for i in range(S)]),
            "[conservation] delay+volume loop: state + queued deliveries changes exactly by the fired reaction's total "
            "stoichiometry", "delay-volume conservation", K)
-    report(c, all(a is b for a, b in zip(sim.x0, x0_orig)) and all(a is b for a, b in zip(sim.params, p_orig)),
+    report(c, all(a is b for a, b in zip(sim.x0, x0_orig)) and all(a is b for a, b in zip(sim.params, p_orig)) and _ud_untouched(sim, UD_orig),
            "[model-untouched] delay+volume loop: the interface's initial-state and parameter arrays are never written",
            "delay+volume loop writes the model", K)
     report(c, s_and(L["current_time"] >= t, L["current_volume"] > 0),
